@@ -16,7 +16,8 @@ Consume == l' = l + 1
 
 TrackInit == TLCSet(1, 1)
 Track == TLCSet(1, IF l > TLCGet(1) THEN l ELSE TLCGet(1))
-Accepted == \/ TLCGet(1) = Len(Rec) + 1
+\* every line consumed, and the file is complete (the recorders end every file with an eof event)
+Accepted == \/ TLCGet(1) = Len(Rec) + 1 /\ Rec[Len(Rec)].ev = "eof"
             \/ /\ PrintT(<<"REJECTED", TLCGet(1)>>)
                /\ FALSE
 
